@@ -251,8 +251,15 @@ fn stream_idle_scan(c: &Ctx, t: &Trace, check_end: bool) -> Option<(usize, &'sta
             Ev::Signal => sig = sig_eff_possible,
             Ev::StreamNone => {
                 ended = true;
-                if check_end && yields < n && !sig && !intr_item_seen {
-                    return Some((pos, "none-before-all-yielded", format!("stream returned None after {yields} of {n} functions")));
+                // An interrupted stream ends early, but only right after its Interrupted item: None
+                // with functions left and no Interrupted item seen is an early end whether or not
+                // a signal was sent (the consumer cannot tell it from completion).
+                if check_end && yields < n && !intr_item_seen {
+                    return Some((
+                        pos,
+                        "none-before-all-yielded",
+                        format!("stream returned None after {yields} of {n} functions{}", if sig { " (a signal had been sent, but no Interrupted item was yielded)" } else { "" }),
+                    ));
                 }
             }
             Ev::RootDrop => sdrop = true,
